@@ -634,17 +634,40 @@ Fixpoint root_loop (fuel : nat) (cf : cfg) (st : pst) (it : iter) (cur : list it
 
 Definition fuel_for (p : str) : nat := 2 * length p + 4.
 
+(* Windows drive / UNC prefixes (_get_win_drive) are not modelled: a pattern that could start with one is
+   answered EUnsupported and left out of the correspondence.  RE_WIN_DRIVE_START can only match a text that
+   starts with two separators (`/` or an escaped backslash each) or with `[\]?<letter>[\]?:`. *)
+Definition is_letter (c : ch) : bool := ((65 <=? c) && (c <=? 90) || (97 <=? c) && (c <=? 122))%N.
+Definition strip_sep (p : str) : option str :=
+  match p with
+  | 47 :: r => Some r
+  | 92 :: 92 :: r => Some r
+  | _ => None
+  end%N.
+Definition maybe_drive (p : str) : bool :=
+  match strip_sep p with
+  | Some r => match strip_sep r with Some _ => true | None => false end
+  | None =>
+    let q := match p with 92 :: r => r | _ => p end%N in
+    match q with
+    | c :: r => is_letter c && match r with 58 :: _ => true | 92 :: 58 :: _ => true | _ => false end%N
+    | [] => false
+    end
+  end.
+
 (* root (1550-1631) *)
 Definition root (cf : cfg) (st : pst) (p : str) (cur : list item) : res (pst * list item) + perr :=
   let st0 := set_after_start st in
-  if c_windrive cf then inr EUnsupported   (* replaced by WinDrive.v's root_win when that model is loaded *)
+  if c_windrive cf && maybe_drive p then inr EUnsupported
   else
-    let root_specified := c_pathname cf && starts_with [cSL] p in
+    let root_specified :=
+      if c_windrive cf then starts_with [cSL] p || starts_with [cBS; cBS] p
+      else c_pathname cf && starts_with [cSL] p in
     if c_noabs cf && root_specified then inr EValue
     else
       let st1 := if root_specified then set_extmatchbase (set_matchbase st0 false) false else st0 in
       let cur1 := if negb root_specified && c_realpath cf
-                  then T [] :: T Frag.u_NO_ROOT :: cur else cur in
+                  then T [] :: T (if c_windrive cf then Frag.u_NO_WIN_ROOT else Frag.u_NO_ROOT) :: cur else cur in
       match root_loop (fuel_for p) cf st1 {| idx := 0; rest := p |} cur1 with
       | Fuel => inr EFuel
       | Stop => inl Stop
@@ -659,12 +682,22 @@ Fixpoint strip_slashes (p : str) : str * bool :=
   | c :: p' => if N.eqb c cSL then (fst (strip_slashes p'), true) else (p, false)
   | [] => ([], false)
   end.
+(* RE_WIN_ANCHOR = ^(?:\\\\|/)+ : leading `/` or escaped-backslash pairs *)
+Fixpoint strip_win_seps (fuel : nat) (p : str) : str * bool :=
+  match fuel with
+  | O => (p, false)
+  | S f =>
+    match strip_sep p with
+    | Some r => (fst (strip_win_seps f r), true)
+    | None => (p, false)
+    end
+  end.
 
 (* _parse (1633-1671) + parse: the regex text, or an error *)
 Definition wcparse_cf (cf : cfg) (st : pst) (p : str) : str + perr :=
   let '(p1, st1) :=
     if c_anchor cf then
-      let '(p', n) := strip_slashes p in
+      let '(p', n) := if c_windrive cf then strip_win_seps (length p) p else strip_slashes p in
       (p', if n then set_extmatchbase (set_matchbase st false) false else st)
     else (p, st) in
   let pre : (pst * list item) + perr :=
